@@ -5,7 +5,7 @@ instants carried under the given labels (real IERS tables configured) and compar
 from lib import tlc as tlcmod
 from lib.ctx import REPO
 
-OPS = ["sgp4", "sgp4beta", "kepler", "j2", "none", "keplernum", "cw", "sun", "moon", "frame", "ephem", "events", "tle", "opm", "oem", "tle-newyear", "sgp4-newyear", "sun-coincide", "moon-coincide"]
+OPS = ["sgp4", "sgp4beta", "kepler", "j2", "none", "keplernum", "cw", "sun", "moon", "frame", "ephem", "events", "tle", "opm", "oem", "tle-newyear", "sgp4-newyear", "sun-coincide", "moon-coincide", "maneuver", "visibility", "measure", "lambert", "ltan", "beta"]
 SCALES = ["UTC", "TAI", "TT", "GPS", "UT1", "TDB"]
 
 
